@@ -49,7 +49,7 @@ def norm_event(e):
            "gets": [{"s": "%s:%s" % (g["o"], g["s"]), "src": list(g["src"]), "perm": bool(g["perm"])}
                     for g in e.get("gets", []) if g["s"] not in ROOTISH],
            "own": bool(e.get("own", True)), "srcw": list(e.get("srcw", [])), "exc": e.get("exc", "-"),
-           "scope": str(e.get("scope", "") or "").split()}
+           "scope": str(e.get("scope", "") or "").split(), "missing": bool(e.get("missing", False))}
     return out
 
 
@@ -69,7 +69,15 @@ def norm_trace(res, inst, settings):
                     break
                 if f["w"] == e["w"] and f["a"] in ("start", "prestart", "bounce", "end"):
                     break
-    evs = [norm_event(dict(e, s=recorded[i]) if i in recorded else e) for i, e in enumerate(log) if e["a"] in SEAM]
+    # a start directly preceded by the same worker's scan that did not find the produced states: run because a state is missing
+    missing = set()
+    last = {}
+    for i, e in enumerate(log):
+        if e["a"] in SEAM:
+            if e["a"] == "start" and last.get(e["w"]) is not None and last[e["w"]]["a"] == "scan" and not last[e["w"]].get("found"):
+                missing.add(i)
+            last[e["w"]] = e
+    evs = [norm_event(dict(e, s=recorded[i]) if i in recorded else (dict(e, missing=True) if i in missing else e)) for i, e in enumerate(log) if e["a"] in SEAM]
     job = res["job"]
     rp = dict(inst.params)
     if inst.lazy:
